@@ -150,6 +150,16 @@ fn model_raw(ans: &str) -> Result<(usize, Vec<Vec<Raw>>), String> {
                 "r" => Raw::Ret(w[1].to_string()),
                 "j" => Raw::Jump(w[1].parse().map_err(|_| "jump")?),
                 "s" => Raw::Switch(w[1].to_string(), vec![(w[2].parse().map_err(|_| "switch")?, w[3].parse().map_err(|_| "switch")?)], Some(w[4].parse().map_err(|_| "switch")?)),
+                // m <var> <default|-> k:l k:l …   (the n-way switch of a match)
+                "m" => {
+                    let d = if w[2] == "-" { None } else { Some(w[2].parse().map_err(|_| "match default")?) };
+                    let mut br = vec![];
+                    for p in &w[3..] {
+                        let (k, l) = p.split_once(':').ok_or("match branch")?;
+                        br.push((k.parse().map_err(|_| "match branch")?, l.parse().map_err(|_| "match branch")?));
+                    }
+                    Raw::Switch(w[1].to_string(), br, d)
+                }
                 _ => return Err(format!("instruction not understood: {i}")),
             });
         }
@@ -175,6 +185,24 @@ fn canon_cfg(blocks: &[Vec<Raw>]) -> String {
         }
         out
     };
+    // the order in which a `match` lists its discriminants is not fixed (the compiler iterates
+    // a hash set): branches are compared in ascending key order
+    let blocks: Vec<Vec<Raw>> = blocks
+        .iter()
+        .map(|b| {
+            b.iter()
+                .map(|i| match i {
+                    Raw::Switch(x, br, d) => {
+                        let mut br = br.clone();
+                        br.sort();
+                        Raw::Switch(x.clone(), br, *d)
+                    }
+                    other => other.clone(),
+                })
+                .collect()
+        })
+        .collect();
+    let blocks = &blocks[..];
     while let Some(b) = stack.pop() {
         if b >= blocks.len() || id.contains_key(&b) {
             continue;
@@ -219,6 +247,33 @@ fn canon_cfg(blocks: &[Vec<Raw>]) -> String {
     out
 }
 
+/// Rename temporaries `tN` by order of first occurrence in the canonical text.
+fn rename_tmps(text: &str) -> String {
+    let mut map: std::collections::HashMap<String, usize> = std::collections::HashMap::new();
+    let mut out = String::new();
+    let bytes: Vec<char> = text.chars().collect();
+    let mut i = 0;
+    while i < bytes.len() {
+        let c = bytes[i];
+        let boundary = i == 0 || !(bytes[i - 1].is_alphanumeric() || bytes[i - 1] == '_');
+        if c == 't' && boundary && i + 1 < bytes.len() && bytes[i + 1].is_ascii_digit() {
+            let mut j = i + 1;
+            while j < bytes.len() && bytes[j].is_ascii_digit() {
+                j += 1;
+            }
+            let name: String = bytes[i..j].iter().collect();
+            let n = map.len();
+            let id = *map.entry(name).or_insert(n);
+            out.push_str(&format!("T{id}"));
+            i = j;
+        } else {
+            out.push(c);
+            i += 1;
+        }
+    }
+    out
+}
+
 /// Compare the structured lowering model with the real MIR of `main`.
 /// Ok(true): compared and equal; Ok(false): outside the model's fragment.
 fn compare_mir(rep: &mut Report, drv: &mut Driver, src: &str, sx: &str, ident: &Value) -> bool {
@@ -242,8 +297,18 @@ fn compare_mir(rep: &mut Report, drv: &mut Driver, src: &str, sx: &str, ident: &
         }
         Err(_) => return false, // the compiler panicked: reported by the behavioural part
     };
-    let (mc, rc) = (canon_cfg(&model.1), canon_cfg(&real.1));
-    if mc != rc || model.0 != real.0 {
+    let (mut mc, mut rc) = (canon_cfg(&model.1), canon_cfg(&real.1));
+    let has_match = src.contains("match ");
+    if has_match && (mc != rc || model.0 != real.0) {
+        // the guard chains of a `match` are lowered in hash-set order: temporaries are numbered
+        // differently from run to run; compare up to a renaming of temporaries by first occurrence
+        (mc, rc) = (rename_tmps(&mc), rename_tmps(&rc));
+        if mc == rc {
+            rep.hist("mir-model-vs-real", "same up to the numbering of temporaries (match)");
+            return true;
+        }
+    }
+    if mc != rc || (model.0 != real.0 && !has_match) {
         rep.mismatch(
             "the structured lowering model (Lean LowerS.lowerFn) and the real MIR of main differ (instructions, order, temporaries or control flow; drops and unit constants ignored)",
             json!({"case": ident, "src": src, "model_tmp_idx": model.0, "real_tmp_idx": real.0, "model": mc, "real": rc}),
